@@ -567,6 +567,80 @@ def global_state(ctx, modules=None):
                'argument object, a remembered copy is not', key='fixture')
 
 
+# ------------------------------------------------------------------ FIELD-STATE
+def field_state(ctx, modules=None):
+    """The instance form of GLOBAL-STATE: a method (not the constructor) stores its argument, or
+    a view of it, in `self.<attr>` and some method of the class tests an argument against that
+    attribute (`is`, `==`, np.array_equal, np.allclose ...) - a memo keyed by the caller's own
+    object.  When the caller changes the object in place, the key changes with it (or, for an
+    identity test, stays the same object with other contents) and the remembered result is
+    handed out for the new contents."""
+    ctx.rule('FIELD-STATE', 'no method remembers an argument object (not a copy) in a field and '
+             'later compares an argument with it: results would depend on what the caller does to '
+             'its own arrays between calls')
+    n = 0
+    for f in ctx.repo.all_functions():
+        short = f.module.name.split('.')[-1]
+        if modules and short not in modules:
+            continue
+        if f.cls is None or f.is_static or not f.params or f.name in ('__init__', '__new__'):
+            continue
+        n += 1
+        me = f.params[0]
+        al, view_of = _alias_closure(f)
+        stored = {}
+        for st in ast.walk(f.node):
+            if isinstance(st, ast.Assign) and len(st.targets) == 1 and \
+                    isinstance(st.targets[0], ast.Attribute) and \
+                    isinstance(st.targets[0].value, ast.Name) and st.targets[0].value.id == me:
+                par = view_of(st.value)
+                if par is not None and par != me:
+                    stored[st.targets[0].attr] = (st, par)
+        if not stored:
+            continue
+        # is an argument compared with the remembered object anywhere in the class?
+        for attr, (st, par) in sorted(stored.items()):
+            hit = None
+            for m in f.cls.methods.values():
+                if not m.params:
+                    continue
+                me2 = m.params[0]
+                for c in ast.walk(m.node):
+                    texts = []
+                    if isinstance(c, ast.Compare):
+                        texts = [c.left] + list(c.comparators)
+                    elif isinstance(c, ast.Call) and norm_text(c.func).split('.')[-1] in (
+                            'array_equal', 'allclose', 'isclose', 'array_equiv', 'equals'):
+                        texts = list(c.args) + ([c.func.value] if isinstance(c.func, ast.Attribute)
+                                                else [])
+                    flat = []
+                    for t_ in texts:
+                        flat += [x for x in ast.walk(t_)]
+                    reads_attr = any(isinstance(x, ast.Attribute) and x.attr == attr and
+                                     isinstance(x.value, ast.Name) and x.value.id == me2
+                                     for x in flat) or any(
+                        isinstance(x, ast.Call) and norm_text(x.func) == 'getattr' and
+                        len(x.args) >= 2 and isinstance(x.args[1], ast.Constant) and
+                        x.args[1].value == attr for x in flat)
+                    reads_param = any(isinstance(x, ast.Name) and x.id in m.params[1:]
+                                      for x in flat)
+                    if reads_attr and reads_param:
+                        hit = (m, c)
+            if hit is None:
+                ctx.ob('FIELD-STATE', True, None, '%s: self.%s keeps `%s` but no argument is '
+                       'compared with it' % (f.qualname, attr, par), f=f, node=st,
+                       key='field-%s-%s' % (f.qualname, attr))
+                continue
+            ctx.ob('FIELD-STATE', False, None, '%s keeps no argument as a memo key' % f.qualname,
+                   f=f, node=st, key='field-%s-%s' % (f.qualname, attr),
+                   why='%s stores the caller\'s own `%s` (not a copy) in self.%s, and %s tests an '
+                       'argument against it (`%s`): after the caller has changed that object in '
+                       'place the test still succeeds and what was computed for the old contents '
+                       'is returned for the new ones' % (f.qualname, par, attr, hit[0].qualname,
+                                                         norm_text(hit[1])[:70]))
+    ctx.ob('FIELD-STATE', True, None, '%d methods examined' % n, key='summary')
+
+
 # ------------------------------------------------------------------ TIME-RTOL
 def time_rtol(ctx, modules=None):
     """np.isclose / np.allclose have a *relative* default tolerance (1e-5 * |b| + 1e-8).  Applied
